@@ -152,7 +152,7 @@ func pickCheapKey(t *tape.Tape) *KeyPair {
 func otherKey(t *tape.Tape, k *KeyPair, sameAlg bool) *KeyPair {
 	var cands []*KeyPair
 	for _, c := range poolAll {
-		if c.Name == k.Name || (k.Priv != nil && c.Priv == k.Priv) {
+		if baseName(c.Name) == baseName(k.Name) {
 			continue
 		}
 		if sameAlg {
@@ -167,6 +167,16 @@ func otherKey(t *tape.Tape, k *KeyPair, sameAlg bool) *KeyPair {
 		return nil
 	}
 	return cands[t.Choose(len(cands), "key.other")]
+}
+
+// baseName strips the "/alg<n>" suffix withAlg adds: the name of the pool key.
+func baseName(n string) string {
+	for i := 0; i < len(n); i++ {
+		if n[i] == '/' {
+			return n[:i]
+		}
+	}
+	return n
 }
 
 func sameFamily(a, b *KeyPair) bool {
